@@ -2188,6 +2188,10 @@ class OrderedNamespaceSet(NamespaceSet[_NSO], MutableSequence[_NSO], Generic[_NS
         else:
             deleted_items = self._order[s]
             new_items = list(itertools.islice(o, len(deleted_items)))
+            if s.step not in (None, 1) and len(new_items) != len(deleted_items):
+                # same check as list.__setitem__, but before any item has been added to the backend
+                raise ValueError(f"attempt to assign sequence of size {len(new_items)} to extended slice of size "
+                                 f"{len(deleted_items)}")
             successful_new_items = []
             try:
                 for i in new_items:
